@@ -36,8 +36,8 @@ META = {
         'regex; C06.NOMUT - no in-place write to a caller-supplied array; C06.STRCONV - string IDs are converted with '
         'astype to the 64-bit type before shifting. NOT decided: numpy integer semantics (trusted base); nothing '
         'else behavioural remains.'),
-    'floors': {'C06.PACK': 13, 'C06.GUARD': 13, 'C06.SHAPE': 11, 'C06.EXCL': 1, 'C06.CAST': 6, 'C06.UNPACK': 12,
-               'C06.PATH-OFFSET': 13, 'C06.RUN2D': 4, 'C06.DOC': 2},
+    'floors': {'C06.WIDE': 6, 'C06.PACK': 13, 'C06.GUARD': 13, 'C06.SHAPE': 11, 'C06.EXCL': 1, 'C06.CAST': 6, 'C06.UNPACK': 12,
+               'C06.PATH-OFFSET': 13, 'C06.RUN2D': 6, 'C06.DOC': 2},
     'trusted_base': ['published SDSS objID / specObjID bit layouts (frozen oracle in pydlsa/rules/c06.py)'],
 }
 
@@ -726,6 +726,45 @@ def check_run2d(ctx, fa_pack, fa_unpack):
               construct='run2d format')
 
 
+def check_run2d_elementwise(ctx, fa_unpack):
+    """C06.RUN2D (per element): every store into the run2d column is computed from the element's own run2d; a value taken from
+    element 0 may be broadcast only under a guard that ALL elements equal it."""
+    u = fa_unpack.func
+
+    def first_only(e, depth=0):
+        for x in ast.walk(e):
+            if isinstance(x, ast.Subscript) and isinstance(x.slice, ast.Constant) and x.slice.value == 0 and 'run2d' in src(x.value):
+                return x
+            if isinstance(x, ast.Name) and depth < 3 and isinstance(x.ctx, ast.Load) and x.id not in ('run2d', 'np'):
+                d = fa_unpack.resolve(x)
+                if d is not None and d is not e:
+                    r = first_only(d, depth + 1)
+                    if r is not None:
+                        return r
+        return None
+    stores = [st for st in walk_local(u.node) if isinstance(st, ast.Assign) and isinstance(st.targets[0], ast.Attribute)
+              and st.targets[0].attr == 'run2d']
+    ctx.need(stores, 'unwrap_specobjid: no store into the run2d column')
+    for st in stores:
+        one = first_only(st.value)
+        ok = True
+        if one is not None:
+            ok = False
+            child = st
+            for a in ancestors(st):
+                if isinstance(a, ast.If) and any(child is b for b in a.body):
+                    for c in ast.walk(a.test):
+                        if isinstance(c, ast.Call) and isinstance(c.func, ast.Attribute) and c.func.attr == 'all' and 'run2d' in src(c.func.value):
+                            ok = True
+                        if isinstance(c, ast.Compare) and src(c).replace(' ', '') in ('run2d.size==1', 'len(run2d)==1'):
+                            ok = True
+                child = a
+        ctx.check('C06.RUN2D', ok, u, st, 'the run2d column is filled element by element (%s)' % src(st.value)[:50],
+                  msg='unwrap_specobjid fills the whole run2d column from element 0 (`%s`) without a guard that all elements are equal: every row of '
+                      'an array call gets row 0\'s reduction, the scalar call does not' % src(one)[:40] if one is not None else '',
+                  construct='run2d column from element 0: ' + src(st)[:70])
+
+
 # ---- purity ---------------------------------------------------------------------------------
 
 def check_nomut(ctx, fa):
@@ -777,8 +816,43 @@ def run(ctx):
     fa_obj, fa_spec, fa_uspec, fa_uobj = FA(f_obj), FA(f_spec), FA(f_uspec), FA(f_uobj)
     ctx.cover(f_obj, f_spec, f_uspec, f_uobj)
 
-    check_pack_function(ctx, fa_obj, OBJID, 'objID')
+    packed_obj, _pe = check_pack_function(ctx, fa_obj, OBJID, 'objID')
     packed, packexpr = check_pack_function(ctx, fa_spec, SPECOBJID, 'specObjID')
+
+    # C06.WIDE: a shift that reaches bit 31 or beyond needs a 64-bit operand on EVERY path; the caller's own array (int16 / int32
+    # columns of a FITS table) is shifted in its own width by NumPy
+    def is_64(e):
+        if isinstance(e, ast.Call):
+            nm = call_name(e)
+            if nm == 'astype' and e.args:
+                d = dotted(e.args[0]) or (e.args[0].value if isinstance(e.args[0], ast.Constant) else '')
+                return str(d).split('.')[-1] in ('int64', 'uint64', 'i8', 'u8')
+            if nm in ('int64', 'uint64'):
+                return True
+            if nm in ('array', 'asarray', 'zeros', 'ones', 'full', 'atleast_1d'):
+                for k_ in e.keywords:
+                    if k_.arg == 'dtype':
+                        d = dotted(k_.value) or (k_.value.value if isinstance(k_.value, ast.Constant) else '')
+                        return str(d).split('.')[-1] in ('int64', 'uint64', 'i8', 'u8')
+            return False
+        if isinstance(e, ast.BinOp) and isinstance(e.op, (ast.Add, ast.Sub, ast.BitOr, ast.Mult)):
+            return is_64(e.left) or is_64(e.right)      # NumPy promotes to the wider integer
+        return False
+    for field, k, operand, base, os_ in packed_obj:
+        width = dict((n, w) for n, s_, w in OBJID).get(field, 0)
+        if k == 0:
+            continue
+        if is_64(operand):
+            ok, why = True, 'cast at the shift: %s' % src(operand)[:40]
+        else:
+            defs = fa_obj.defs(base)
+            narrow = [(d, v) for d, v in defs if d is not None and not (v is not None and is_64(v))]
+            ok = bool(defs) and not narrow
+            why = ('every definition reaching the shift is 64-bit' if ok else
+                   'the caller\'s own `%s` reaches `%s << %d` on the path where it is not a Python int' % (field, field, k))
+        ctx.check('C06.WIDE', ok, f_obj, operand, 'objID: %s (bits %d-%d) is 64 bits wide when shifted (%s)' % (field, k, k + width - 1, why),
+                  msg='sdss_objid: %s: an int16/int32 array (as read from a FITS table) is shifted by %d in its own width, the high bits are lost '
+                      'and the array call disagrees with the scalar call' % (why, k), construct='narrow shift: %s << %d' % (field, k))
 
     # C06.CAST
     for field, k, operand, base, os_ in packed:
@@ -821,5 +895,6 @@ def run(ctx):
     check_doc(ctx, f_obj, OBJID, 'objID')
     check_doc(ctx, f_spec, SPECOBJID, 'specObjID')
     check_run2d(ctx, fa_spec, fa_uspec)
+    check_run2d_elementwise(ctx, fa_uspec)
     for fa in (fa_obj, fa_spec, fa_uobj, fa_uspec):
         check_nomut(ctx, fa)
